@@ -91,6 +91,14 @@ def install(ctx, repo, probes):
                     prob = "non-empty duration for equal instants"
             elif abs(got - want) > TOL:
                 prob = "length off by %s s" % float(got - want)
+            else:
+                # fractional operands: float noise can only flip a borrow
+                # when the difference is within noise of a whole second;
+                # otherwise one sign and the ranges are demanded as well
+                frac = want % 1
+                if min(frac, 1 - frac) > TOL and not shape_ok(d):
+                    prob = "components out of range or of mixed sign"
+
         if prob:
             ctx.violation("sub.wrong", "%r - %r = %r: %s (reference %s s, "
                           "mode %s)" % (ka, kb, R.dur_key(d) if hasattr(
